@@ -15,13 +15,17 @@ KNOWN_FILE = os.path.join(HERE, 'known_findings.json')
 BASELINE_FILE = os.path.join(HERE, 'baseline_obligations.json')
 
 
-def load_baseline(prop):
-    """ids of the obligations that are discharged on the unchanged tree (committed; regenerated by tools/mkbaseline.py)"""
+def load_baseline(prop, which='discharged'):
+    """ids -> function of the obligations that are discharged (which='discharged': unbounded) or bounded-ok
+    (which='bounded') on the unchanged tree (committed; regenerated with VERIF_RECORD_BASELINE=1 tools/runall.sh)"""
     try:
         with open(BASELINE_FILE) as fh:
-            return set(json.load(fh).get(prop, []))
+            d = json.load(fh).get(prop, {})
     except Exception:
-        return set()
+        return {}
+    if isinstance(d, list):            # old format: discharged ids only
+        return {i: '' for i in d} if which == 'discharged' else {}
+    return dict(d.get(which, {}))
 
 TRUSTED_COMMON = [
     'the VC generator vlib/pyvc (own AST->z3 symbolic executor; Python semantics idealised: mathematical integers and reals, no rounding/overflow/NaN, insertion-ordered dicts, distinct parameters do not alias)',
@@ -115,17 +119,43 @@ def finish(rep, replayer=None):
     # an obligation that is discharged on the unchanged tree (baseline_obligations.json) and is no longer discharged is
     # reported as a violation even without a counter-model (VIOLATION ... no-failing-input-found, solver reason attached)
     base = load_baseline(rep.prop)
+    base_b = load_baseline(rep.prop, 'bounded')
     for o in rep.obs:
         if o.status == 'undecided' and o.id in base and not o.bounded:
             o.status = 'refuted'
             o.backend += '; was discharged on the unchanged tree, now not discharged and not refuted at finite scope'
             o.replay_note = (o.replay_note or '') + ' [regression of a baseline obligation]'
+        elif o.status == 'undecided' and o.bounded and o.id in base_b:
+            o.status = 'bounded-refuted'
+            o.backend += '; this bounded check ran to completion on the unchanged tree, now its harness cannot decide (see detail)'
+            o.replay_note = (o.replay_note or '') + ' [regression of a baseline obligation]'
+    # a verification unit / bounded check of the baseline that produced NOTHING in this run (function gone, harness aborted
+    # before reaching it): reported as one regression per unit.  Flow-analysis (E2) obligations are exempt: their ids follow
+    # helper names, and renaming a private helper is harmless.
+    if not os.environ.get('VERIF_RECORD_BASELINE') and rep.tier in ('quick', 'thorough') and not getattr(rep, 'partial', False):
+        have = {o.id for o in rep.obs}
+        have_units = {o.id.split(':')[0] for o in rep.obs if '[' in o.id.split(':')[0]}
+        gone = {}
+        for bid, fn in list(base.items()) + list(base_b.items()):
+            head = bid.split(':')[0]
+            if '[' in head:
+                if head not in have_units:
+                    gone.setdefault(head, (bid, fn))
+            elif bid in base_b and bid not in have:
+                gone.setdefault(bid, (bid, fn))
+        for unit, (bid, fn) in sorted(gone.items()):
+            rep.obs.append(Ob(unit if '[' in unit else bid, fn or unit, 'post', 'refuted' if bid in base else 'bounded-refuted',
+                              backend='baseline comparison', detail='no obligation of this unit was generated in this run although it is discharged on the unchanged tree '
+                              '(function removed / renamed, or the harness aborted before reaching it)', site=fn or unit,
+                              bounded=('see baseline' if bid in base_b and bid not in base else None),
+                              replay_note='unit missing from this run [regression of a baseline obligation]', engine='baseline'))
     if os.environ.get('VERIF_RECORD_BASELINE'):
         try:
             data = json.load(open(BASELINE_FILE)) if os.path.exists(BASELINE_FILE) else {}
         except Exception:
             data = {}
-        data[rep.prop] = sorted({o.id for o in rep.obs if o.status == 'discharged' and not o.bounded})
+        data[rep.prop] = dict(discharged={o.id: o.function for o in rep.obs if o.status == 'discharged' and not o.bounded},
+                              bounded={o.id: o.function for o in rep.obs if o.status == 'bounded-ok'})
         with open(BASELINE_FILE, 'w') as fh:
             json.dump(data, fh, indent=0, sort_keys=True)
     refuted = [o for o in rep.obs if o.status in ('refuted', 'bounded-refuted')]
